@@ -71,6 +71,15 @@ pub fn opt_get_mut<'a, K, V>(g: &'a mut Option<OrderedMap<K, V>>, k: &K) -> (r: 
         },
 { unimplemented!() }
 
+/// `g.as_mut().and_then(|m| m.get_mut(k)).map(|e| e.replace(v))` / `if let Some(e) = .. { *e = v }`: the entry is overwritten only if the key is present
+#[verifier::external_body]
+pub fn opt_replace_if_present<K, V>(g: &mut Option<OrderedMap<K, V>>, k: &K, v: V) -> (r: Option<V>)
+    ensures
+        (*final(g) is Some) == (*old(g) is Some),
+        omap(*old(g)).contains_key(*k) ==> omap(*final(g)) == omap(*old(g)).insert(*k, v) && r == Some(omap(*old(g))[*k]),
+        !omap(*old(g)).contains_key(*k) ==> omap(*final(g)) == omap(*old(g)) && r is None,
+{ unimplemented!() }
+
 #[verifier::external_body]
 pub fn opt_insert<K, V>(g: &mut Option<OrderedMap<K, V>>, k: K, v: V) -> (r: Option<V>)
     ensures
@@ -263,7 +272,7 @@ impl ReceiverLinkD {
 //@@ param writer : &mut ChanSender<LinkFrame>
 //@@ subst `let mut lock = self.unsettled.write();` => `let mut lock = &mut self.unsettled;` rule=R4
 //@@ subst `lock.as_mut() .and_then(|map| map.swap_remove(&delivery_info.delivery_tag))` => `opt_swap_remove(&mut *lock, &delivery_info.delivery_tag)` rule=R15
-//@@ subst `lock.get_or_insert(OrderedMap::new()) .insert(delivery_info.delivery_tag.clone(), Some(state.clone()))` => `opt_insert(&mut *lock, delivery_info.delivery_tag.clone(), Some(state.clone()))` rule=R15
+//@@ subst `lock.as_mut() .and_then(|map| map.get_mut(&delivery_info.delivery_tag)) .map(|entry| entry.replace(state.clone()))` => `opt_replace_if_present(&mut *lock, &delivery_info.delivery_tag, Some(state.clone()))` rule=R15
 //@@ subst `.map_err(|_v0| __E1)` => `.map_err(|_v0: ChanSendError| -> (o: DispositionError) ensures o == disp_stop_err(self.session_stop_reason.val()) { __E1 })` rule=R18
 //@@ spec
     ensures
@@ -274,7 +283,8 @@ impl ReceiverLinkD {
             let m1 = omap(final(self).unsettled);
             let known = m0.contains_key(delivery_info.delivery_tag);
             &&& will_settle ==> m1 == m0.remove(delivery_info.delivery_tag)                                               // [C02.receiver.settled-forgets] a settled delivery is forgotten: exactly its own entry
-            &&& !will_settle ==> m1 == m0.insert(delivery_info.delivery_tag, Some(state))                                 // [C02.receiver.second-keeps-unsettled] in settle-second mode the delivery STAYS in the unsettled map (with the outcome) until the sender's settling disposition arrives
+            &&& !will_settle && known ==> m1 == m0.insert(delivery_info.delivery_tag, Some(state))                        // [C02.receiver.second-keeps-unsettled] in settle-second mode the delivery STAYS in the unsettled map (with the outcome) until the sender's settling disposition arrives
+            &&& !will_settle && !known ==> m1 == m0                                                                       // [C02.receiver.settled-not-re-entered] a delivery that is no longer (or never was) unsettled -- sent pre-settled, or already settled by the sender -- is NOT entered into the unsettled map by a late accept / reject of the application: after settlement neither side retains it
             &&& (known && r is Ok) ==> final(writer).sent@ == old(writer).sent@.push(LinkFrame::Disposition(Disposition {
                     role: Role::Receiver, first: delivery_info.delivery_id, last: None, settled: will_settle, state: Some(state), batchable }))   // [C02.receiver.disposition] one disposition for this delivery's own id, carrying exactly the outcome the application applied
             &&& !known ==> final(writer).sent@ == old(writer).sent@ && r is Ok                                            // [C02.receiver.unknown-delivery] an already settled / unknown delivery produces no disposition
@@ -290,7 +300,7 @@ impl ReceiverLinkD {
 //@@ param writer : &mut ChanSender<LinkFrame>
 //@@ subst `let mut lock = self.unsettled.write();` => `let mut lock = &mut self.unsettled;` rule=R4
 //@@ subst `lock.as_mut() .and_then(|map| map.swap_remove(&info.delivery_tag));` => `opt_swap_remove(&mut *lock, &info.delivery_tag);` rule=R15
-//@@ subst `lock.get_or_insert(OrderedMap::new()) .insert(info.delivery_tag.clone(), Some(state.clone()));` => `opt_insert(&mut *lock, info.delivery_tag.clone(), Some(state.clone()));` rule=R15
+//@@ subst `if let Some(entry) = lock .as_mut() .and_then(|map| map.get_mut(&info.delivery_tag)) { *entry = Some(state.clone()); }` => `opt_replace_if_present(&mut *lock, &info.delivery_tag, Some(state.clone()));` rule=R15
 //@@ subst `consecutive_infos.last().map(|el| el.delivery_id)` => `Some(consecutive_infos[consecutive_infos.len() - 1].delivery_id)` rule=R19
 //@@ subst `.map_err(|_v0| __E1)` => `.map_err(|_v0: ChanSendError| -> (o: DispositionError) ensures o == disp_stop_err(self.session_stop_reason.val()) { __E1 })` rule=R18
 //@@ spec
@@ -306,7 +316,7 @@ impl ReceiverLinkD {
                     settled: will_settle, state: Some(state), batchable })))                                               // [C02.receiver.range-disposition] a run of consecutive deliveries is disposed of by ONE disposition first..last covering exactly that run, with the outcome the application applied
             &&& (r is Err ==> final(writer).sent@ == old(writer).sent@)
             &&& (will_settle ==> forall|i: int| 0 <= i < consecutive_infos@.len() ==> !m1.contains_key(#[trigger] consecutive_infos@[i].delivery_tag))          // [C02.receiver.settled-forgets] every delivery of the run is forgotten when settled ...
-            &&& (!will_settle ==> forall|i: int| 0 <= i < consecutive_infos@.len() ==> m1.contains_key(#[trigger] consecutive_infos@[i].delivery_tag) && m1[consecutive_infos@[i].delivery_tag] == Some(state))   // [C02.receiver.second-keeps-unsettled] ... and every one is kept (with the outcome) in settle-second mode
+            &&& (!will_settle ==> m1.dom() =~= omap(old(self).unsettled).dom() && forall|i: int| 0 <= i < consecutive_infos@.len() && omap(old(self).unsettled).contains_key(#[trigger] consecutive_infos@[i].delivery_tag) ==> m1[consecutive_infos@[i].delivery_tag] == Some(state))   // [C02.receiver.second-keeps-unsettled] ... and every one is kept (with the outcome) in settle-second mode
         }),
 //@@ loop 0 optional
         invariant
@@ -315,7 +325,8 @@ impl ReceiverLinkD {
 //@@ loop 1 optional
         invariant
             self.rcv_settle_mode == old(self).rcv_settle_mode,
-            forall|i: int| 0 <= i < __it1.index@ ==> omap(*lock).contains_key(#[trigger] consecutive_infos@[i].delivery_tag) && omap(*lock)[consecutive_infos@[i].delivery_tag] == Some(state),
+            omap(*lock).dom() =~= omap(old(self).unsettled).dom(),                                                     // [C02.receiver.settled-not-re-entered] no delivery enters the unsettled map through a disposition
+            forall|i: int| 0 <= i < __it1.index@ && omap(old(self).unsettled).contains_key(#[trigger] consecutive_infos@[i].delivery_tag) ==> omap(*lock)[consecutive_infos@[i].delivery_tag] == Some(state),
 //@@ end
 }
 
@@ -362,6 +373,7 @@ impl ReceiverLinkT {
 //@@ subst `DeliveryState::Received(Received { section_number, section_offset, })` => `received_state(section_number, section_offset)` rule=R11
 //@@ subst `let mut lock = self.unsettled.write();` => `let mut lock = &mut self.unsettled;` rule=R4
 //@@ subst `lock .get_or_insert(OrderedMap::new()) .insert(delivery_tag.clone(), Some(state))` => `opt_insert(&mut *lock, delivery_tag.clone(), Some(state))` rule=R15
+//@@ subst `lock.as_mut().and_then(|map| map.swap_remove(&delivery_tag))` => `opt_swap_remove(&mut *lock, &delivery_tag)` rule=R15
 //@@ subst `MessageDecodeError { source, info }.into()` => `ReceiverTransferError::MessageDecode(MessageDecodeError { source, info })` rule=R16
 //@@ subst `let link_output_handle = self .output_handle .clone() .ok_or(ReceiverTransferError::IllegalState)? .into();` => `let link_output_handle = output_to_handle(self.output_handle.clone().ok_or(ReceiverTransferError::IllegalState)?);` rule=R16
 //@@ spec
@@ -377,7 +389,7 @@ impl ReceiverLinkT {
         r is Ok ==> ({
             let presettled = transfer.settled is Some && transfer.settled->Some_0;
             &&& transfer.delivery_id == Some(r->Ok_0.delivery_id) && transfer.delivery_tag == Some(r->Ok_0.delivery_tag)   // [C02.receiver.delivery-identity] the delivery handed to the application carries the transfer's own id and tag
-            &&& presettled ==> omap(final(self).unsettled) == omap(old(self).unsettled)                                  // [C02.receiver.presettled-not-recorded]
+            &&& presettled ==> omap(final(self).unsettled) == omap(old(self).unsettled).remove(r->Ok_0.delivery_tag)     // [C02.receiver.presettled-not-recorded] a delivery the sender has settled is not in the receiver's unsettled map afterwards -- also when its earlier frames (a multi-frame delivery) had been recorded there while it was incomplete
             &&& !presettled ==> omap(final(self).unsettled).dom() =~= omap(old(self).unsettled).dom().insert(r->Ok_0.delivery_tag)   // [C02.receiver.unsettled-recorded] an unsettled delivery is recorded in the receiver's unsettled map under its own tag
         }),
         final(self).local_state == old(self).local_state && final(self).rcv_settle_mode == old(self).rcv_settle_mode,
